@@ -19,7 +19,7 @@ LEVEL_RULE = (
 EXHAUSTIVE_SUBDOMAINS = ["the 0.0005-degree grid over [-90,90] (360001 points, split over shards)"]
 ASSUMPTIONS = ["transition latitudes computed in double precision; cases within 1e-9 deg of one accept both neighbours",
                "Python implementation here; the C twin is compared on the same latitude set by C15"]
-REQUIRED = ["nl_1", "nl_2", "nl_59", "grid", "cprgrid", "ulps", "window87", "float_after_equal_float32"]
+REQUIRED = ["nl_1", "nl_2", "nl_59", "grid", "cprgrid", "tiny", "ulps", "window87", "float_after_equal_float32"]
 
 WINDOW_HI = 87.0 + 1e-8 + 1e-5 * 87 + 1e-9
 
@@ -52,6 +52,16 @@ def m_nl(ctx, case):
             ctx.hit("float_after_equal_float32")
         r = call(f, conv(lat))
         ctx.ev()
+        if case.get("kind") == "tiny":
+            # the same call in a host program that turns floating-point anomalies into exceptions and warnings into errors
+            import warnings
+            import numpy as np
+            with np.errstate(all="raise"), warnings.catch_warnings():
+                warnings.simplefilter("error")
+                rs = call(f, conv(lat))
+            ctx.ev()
+            if rs != r:
+                ctx.violation("cprNL-depends-on-error-policy-near-zero", lat=lat, as_type=case.get("as", "float"), default_policy=r[1:], strict_policy=rs[1:])
         allowed = cpr.NL_allowed(lat)
         if r[0] != "ok":
             ctx.violation("cprNL-raises", lat=lat, observed=r[1:])
@@ -154,6 +164,15 @@ def cases(ctx):
         rows = sorted(rows)
         yield "nl", {"kind": "cprgrid", "lats": rows, "sorted_abs": True}
         yield "nl", {"kind": "cprgrid", "lats": [-x_ for x_ in rows], "sorted_abs": True}
+    i += 1
+    # "every float neighbourhood of 0": denormal and tiny latitudes, as Python floats and as numpy float64 scalars (the replay
+    # phases repeat them under np.errstate(all="raise"): scaling such a value to radians before the equator test underflows)
+    if ctx.mine(i):
+        tiny = [5e-324, 1e-320, 1e-310, 2.3e-308, 1e-307, 1e-300, 1e-200, 1e-100, 1e-30, 1e-12]
+        yield "nl", {"kind": "tiny", "lats": tiny, "sorted_abs": True}
+        yield "nl", {"kind": "tiny", "lats": [-x_ for x_ in tiny], "sorted_abs": True}
+        yield "nl", {"kind": "tiny", "lats": tiny, "sorted_abs": True, "as": "float64"}
+        yield "nl", {"kind": "tiny", "lats": [-x_ for x_ in tiny], "sorted_abs": True, "as": "float64"}
     i += 1
     # argument types: integer latitudes are real latitudes too.  (Single-precision inputs are not judged NEAR transitions:
     # the closed form evaluated in float32 legitimately flips within ~1e-6 deg of one; away from them see "float32" below.)
